@@ -205,6 +205,8 @@ class Ctx:
         self.scratch = BUILD / pid
         self.scratch.mkdir(parents=True, exist_ok=True)
         REPLAY.mkdir(parents=True, exist_ok=True)
+        for old in REPLAY.glob(f'{pid}_*.json'):
+            old.unlink()
         self._n_replay = 0
         self._seen_sigs = {}
         self.findings = json.loads((VERIF / 'known_findings.json').read_text()) \
